@@ -476,6 +476,8 @@ func c19EnumLoadLTSV(r *c19Runner) {
 var c19JSONDocs = []string{
 	`{}`, `[]`, `null`, `1`, `"a"`, `{"a":1}`, `[{"a":1},{"b":[1,{"c":null}]}]`, `{"a":[{"a":{"a":[1,2]}},{"0":"x"}]}`, `[[1,2],[3]]`, `[1,{"a":2},"x",null,[{}]]`,
 	`{"a":{"a":{"a":{"a":[{"a":1,"0":2},{"a":3}]}}}}`, `[{"a":1},{"a":1,"a":2}]`, `{"":1}`, `{"a.b":{"[0]":1}}`,
+	// empty containers at every depth, and a JSON Lines text whose second line yields nothing for the query
+	`{"a":[]}`, `{"a":{}}`, `[[]]`, `{"a":[[]]}`, `{"a":[{}]}`, "{\"a\":[{\"a\":1}]}\n{\"a\":[]}", "{\"a\":{\"a\":1}}\n{\"a\":null}\n{}",
 }
 
 func c19EnumLoadJSON(r *c19Runner) {
@@ -488,7 +490,7 @@ func c19EnumLoadJSON(r *c19Runner) {
 	// (1) JSON text enumerated, a few queries
 	qLen := 3
 	if !th {
-		r.c.Info("json_bounds", "text <=3 symbols x 7 queries, 4 symbols x 3 queries; query strings <=3 symbols x 14 documents x {JSON,JSONL}, 4 symbols x 4 documents")
+		r.c.Info("json_bounds", "text <=3 symbols x 7 queries, 4 symbols x 3 queries; query strings <=3 symbols x 21 documents x {JSON,JSONL}, 4 symbols x 4 documents")
 		for _, f := range []struct {
 			name string
 			syms []c19ref.Sym
@@ -498,7 +500,7 @@ func c19EnumLoadJSON(r *c19Runner) {
 		}
 	} else {
 		qLen = 5
-		r.c.Info("json_bounds", "text <=5 symbols x 7 queries; query strings <=5 symbols x 14 documents x {JSON,JSONL}")
+		r.c.Info("json_bounds", "text <=5 symbols x 7 queries; query strings <=5 symbols x 21 documents x {JSON,JSONL}")
 		r.enumStrings("json", "data", c19ref.JSONSyms, 0, 5, c19Opts(queries, []string{"UTF8"}, none))
 		r.enumStrings("jsonl", "data", c19ref.JSONLSyms, 0, 5, c19Opts(queries, []string{"UTF8"}, none))
 	}
